@@ -87,3 +87,13 @@ package masswallet
 //@ func (*NtfnsHandler).onRelevantTx
 //@   trusted
 //@   requires h != nil && rec != nil
+
+// automatic path: inputs are mined credits of the wallet
+//@ func (*WalletManager).addTxIn
+//@   props C10 C19
+//@   requires wmWF(w) && msgTx != nil
+//@   requires forall qi_ int :: 0 <= qi_ && qi_ < len(inputUtxos) ==> inputUtxos[qi_] != nil
+//@   modifies rollbacks(), &msgTx.TxIn, msgTx.TxIn
+//@   at "msgTx.AddTxIn(txIn)" assert[C10] seqOK(pks, txIn.Sequence, LockTime, forks.EnforceMASSIP0002WarmUp(block.Height))
+//@   loop#1 invariant len(msgTx.TxIn) == old(len(msgTx.TxIn)) + iter_ && (sameBlock(msgTx.TxIn, old(msgTx.TxIn)) || fresh(msgTx.TxIn))
+//@   ensures[C10] result == nil ==> len(msgTx.TxIn) == old(len(msgTx.TxIn)) + len(inputUtxos)
